@@ -253,12 +253,13 @@ theorem offset_cls (k : Kind) : offset k.cls.size = 0 := by cases k <;> decide
 theorem loop_nil_cands (c : Char) (cs : Str) (a : Nat) : loop (c :: cs) a [] = .error .valueError := by
   simp [loop, narrow]
 
-/-- the constructor in closed form: accepted iff some template of the class is instantiated,
-and then the value is what the hex digits spell -/
-theorem parseObj_eq (k : Kind) (s : Str) :
-    parseObj k s = if k.cls.formats.any (fun t => tmatch t s) then .ok (hexFold 0 s) else .error .valueError := by
+/-- `_parse(string, cls)` for one class in closed form: accepted iff some template of the class is
+instantiated; then the value is what the hex digits spell and the class is that class -/
+theorem parse_single_eq (k : Kind) (s : Str) :
+    parse [k.cls] s = if k.cls.formats.any (fun t => tmatch t s) then .ok (hexFold 0 s, k.cls)
+      else .error .valueError := by
   have ok := candsOK k s.length
-  unfold parseObj parse
+  unfold parse
   by_cases hs : s.length < 1
   · have : s = [] := by cases s <;> simp_all
     subst this
@@ -303,6 +304,16 @@ theorem parseObj_eq (k : Kind) (s : Str) :
         simp only [if_true]
         rw [hm.1.2, (ok.sound c0 hc0'.1).2.2, offset_cls]
         rfl
+
+/-- the constructor in closed form: accepted iff some template of the class is instantiated,
+and then the value is what the hex digits spell -/
+theorem parseObj_eq (k : Kind) (s : Str) :
+    parseObj k s = if k.cls.formats.any (fun t => tmatch t s) then .ok (hexFold 0 s) else .error .valueError := by
+  unfold parseObj
+  rw [parse_single_eq]
+  by_cases h : k.cls.formats.any (fun t => tmatch t s) = true
+  · simp only [h, if_true]
+  · simp only [h]; rfl
 
 /-! ## Part 2 — hex digits and renderings -/
 
@@ -617,5 +628,145 @@ theorem lower_fill_toHex (k : Kind) (t : Str) (ht : t ∈ k.cls.formats) (v : Na
   intro d hd
   obtain ⟨n, hn, rfl⟩ := toHex_digits _ _ d hd
   exact lowerChar_hexL n hn
+
+/-! ## Part 3 — the two-class parse of `MACEUISearch` -/
+
+def Kind.other : Kind → Kind
+  | .mac => .eui64
+  | .eui64 => .mac
+
+theorem cands_pair_nil (n : Nat) (h1 : n ≠ 17) (h2 : n ≠ 14) (h3 : n ≠ 12) (h4 : n ≠ 23) (h5 : n ≠ 19)
+    (h6 : n ≠ 16) : candidates [eui48, eui64] n = [] := by
+  have a1 : ¬ 17 = n := by omega
+  have a2 : ¬ 14 = n := by omega
+  have a3 : ¬ 12 = n := by omega
+  have a4 : ¬ 23 = n := by omega
+  have a5 : ¬ 19 = n := by omega
+  have a6 : ¬ 16 = n := by omega
+  simp [candidates, collect, eui48, eui64, a1, a2, a3, a4, a5, a6, sortCands]
+
+/-- the template lengths of the two sizes are disjoint: for every length the candidate list of
+the pair is the candidate list of one class, and the other class has no candidate -/
+theorem cands_pair (n : Nat) : ∃ k : Kind,
+    candidates [eui48, eui64] n = candidates [k.cls] n ∧ candidates [k.other.cls] n = [] := by
+  by_cases h1 : n = 17
+  · subst h1; exact ⟨.mac, by decide, by decide⟩
+  by_cases h2 : n = 14
+  · subst h2; exact ⟨.mac, by decide, by decide⟩
+  by_cases h3 : n = 12
+  · subst h3; exact ⟨.mac, by decide, by decide⟩
+  by_cases h4 : n = 23
+  · subst h4; exact ⟨.eui64, by decide, by decide⟩
+  by_cases h5 : n = 19
+  · subst h5; exact ⟨.eui64, by decide, by decide⟩
+  by_cases h6 : n = 16
+  · subst h6; exact ⟨.eui64, by decide, by decide⟩
+  refine ⟨.mac, ?_, ?_⟩
+  · rw [cands_pair_nil n h1 h2 h3 h4 h5 h6]; exact (cands_nil_mac n h1 h2 h3).symm
+  · exact cands_nil_eui64 n h4 h5 h6
+
+theorem parse_nil_cands (classes : List Cls) (s : Str) (h : candidates classes s.length = []) :
+    parse classes s = .error .valueError := by
+  unfold parse
+  cases s with
+  | nil => rfl
+  | cons c cs =>
+    have hl : ¬ (c :: cs).length < 1 := by simp
+    rw [if_neg hl, h, loop_nil_cands]
+
+/-- the two-class `_parse` is the one-class `_parse` of exactly one size; the other size rejects -/
+theorem parse_pair (w : Str) : ∃ k : Kind,
+    parse [eui48, eui64] w = parse [k.cls] w ∧ parse [k.other.cls] w = .error .valueError := by
+  obtain ⟨k, h1, h2⟩ := cands_pair w.length
+  refine ⟨k, ?_, parse_nil_cands _ w h2⟩
+  unfold parse
+  rw [h1]
+
+theorem size_cls (k : Kind) : k.cls.size = 8 * k.nbytes := by cases k <;> rfl
+
+theorem other_ne (k : Kind) : k.other ≠ k := by cases k <;> decide
+theorem eq_or_other (k k' : Kind) : k' = k ∨ k' = k.other := by cases k <;> cases k' <;> decide
+
+/-- `classify` in closed form, relative to the one size `k` that has candidates -/
+theorem classify_eq_of (w : Str) (k : Kind) (h : parse [eui48, eui64] w = parse [k.cls] w) :
+    classify w = if k.cls.formats.any (fun t => tmatch t w) then .ok (k, hexFold 0 w)
+      else .error .valueError := by
+  unfold classify
+  rw [h, parse_single_eq]
+  by_cases hany : k.cls.formats.any (fun t => tmatch t w) = true
+  · have hobj : parseObj k w = .ok (hexFold 0 w) := by rw [parseObj_eq, if_pos hany]
+    have hlt := parseObj_lt k w _ hobj
+    simp only [hany, if_true]
+    have : ¬ hexFold 0 w ≥ 1 <<< k.cls.size := by
+      rw [size_cls, Nat.one_shiftLeft]; omega
+    simp only [this, if_false]
+    cases k
+    · simp [Kind.cls]
+    · have hne : eui64 ≠ eui48 := by decide
+      simp [Kind.cls, hne]
+  · simp only [hany]; rfl
+
+theorem classify_iff_parseObj (w : Str) (k : Kind) (v : Nat) :
+    classify w = .ok (k, v) ↔ parseObj k w = .ok v := by
+  obtain ⟨k0, h1, h2⟩ := parse_pair w
+  rw [classify_eq_of w k0 h1]
+  rcases eq_or_other k0 k with rfl | rfl
+  · rw [parseObj_eq]
+    by_cases hany : k.cls.formats.any (fun t => tmatch t w) = true
+    · simp only [hany, if_true, Except.ok.injEq, Prod.mk.injEq, true_and]
+    · simp only [hany]
+      constructor <;> (intro h; cases h)
+  · have : parseObj k0.other w = .error .valueError := by unfold parseObj; rw [h2]
+    rw [this]
+    have hne := other_ne k0
+    constructor
+    · intro h
+      split at h
+      · simp only [Except.ok.injEq, Prod.mk.injEq] at h; exact absurd h.1.symm hne
+      · cases h
+    · intro h; cases h
+
+/-! ## Part 4 — `==` -/
+
+theorem eq_iff_of_lt (k : Kind) (v w : Nat) (hv : v < 2 ^ (8 * k.nbytes)) (hw : w < 2 ^ (8 * k.nbytes)) :
+    (eq k v w = true ↔ v = w) ∧ (eqRaw k v w = true ↔ v = w) := by
+  have key : fill (tpl k 0) (toHex (2 * k.nbytes) v) = fill (tpl k 0) (toHex (2 * k.nbytes) w) → v = w := by
+    intro he
+    have p1 := parse_fill k _ (tpl_mem k 0 (by omega)) v hv
+    have p2 := parse_fill k _ (tpl_mem k 0 (by omega)) w hw
+    rw [he, p2] at p1
+    exact (Except.ok.inj p1).symm
+  constructor
+  · simp only [eq, dash_eq, lower_fill_toHex k _ (tpl_mem k 0 (by omega)), beq_iff_eq]
+    exact ⟨key, fun h => by rw [h]⟩
+  · simp only [eqRaw, canon_eq, beq_iff_eq]
+    exact ⟨key, fun h => by rw [h]⟩
+
+/-- `==` between any two objects (wrapper or plain, either size) whose addresses are in range:
+true exactly when they have the same size and the same address -/
+theorem objEq_iff (a b : Obj) (ha : a.value < 2 ^ (8 * a.kind.nbytes)) (hb : b.value < 2 ^ (8 * b.kind.nbytes)) :
+    objEq a b = true ↔ a.kind = b.kind ∧ a.value = b.value := by
+  cases a with
+  | wrapped k v =>
+    cases b with
+    | wrapped k' w =>
+      simp only [objEq, Obj.kind, Obj.value] at *
+      by_cases hk : k = k'
+      · subst hk; simp only [if_true, true_and]; exact (eq_iff_of_lt k v w ha hb).1
+      · simp [hk]
+    | plain k' w =>
+      simp only [objEq, Obj.kind, Obj.value] at *
+      by_cases hk : k = k'
+      · subst hk; simp only [if_true, true_and]; exact (eq_iff_of_lt k v w ha hb).2
+      · simp [hk]
+  | plain k v =>
+    cases b with
+    | wrapped k' w =>
+      simp only [objEq, Obj.kind, Obj.value] at *
+      by_cases hk : k = k'
+      · subst hk; simp only [if_true, true_and]
+        rw [(eq_iff_of_lt k w v hb ha).2]; exact eq_comm
+      · simp [hk]
+    | plain k' w => simp [objEq, Obj.kind, Obj.value]
 
 end Ccp.Mac
